@@ -13,17 +13,34 @@ package main
 // chosencases/preload keys) as when pandora reads a config file; otherwise by http.NewProvider.
 // `cap` = the harness cancels the context when `cap` ammo have been acquired: greater than the number of ammo a
 // bounded cell delivers (never reached then), or smaller (the run is cancelled in the middle of a pass).
+// Headers (round 2): `fh=0:X-A:1;2:x-a:2` = the source declares header X-A: 1 at position 0 and x-a: 2 at position 2
+// (uri / uripost: a `[Key: val]` line before that entry, position n = after the last entry; http/json: a member of
+// that entry's "headers"; raw: a header line of that entry's request); `ch=X-C:c1;Host:cfg.example` = the provider's
+// `headers:` option.  Absent = none.
 // Observation: for each side (s = streaming, p = preload) the delivered entry ids, whether the harness cut the run at
 // `cap`, what Run returned and what the consumer saw at the end; tagsok = every delivered ammo carried the tag of its
-// entry.
-//   s.seq=1,2 s.cut=0 s.run=nil s.end=closed p.seq=1,2 p.cut=0 p.run=nil p.end=closed tagsok=1
+// entry; reqok = every delivered request had the method and body of its entry; s.hd / p.hd = for every delivered
+// entry id the Host and headers its requests carried (`*:` = the same for all delivered entries; several different
+// ones for the same entry are joined by `/`).
+//   s.seq=1,2 s.cut=0 s.run=nil s.end=closed p.seq=1,2 p.cut=0 p.run=nil p.end=closed tagsok=1 reqok=1 s.hd=*:^ p.hd=*:^
 // A source that the constructor rejects is observed as run=construct end=norun on that side.
+//
+// Every cell runs in a CHILD process (this binary with C14_CHILD=1, a pool of them, one line per request on
+// stdin/stdout): a fatal runtime error of the code under test (`fatal error: concurrent map read and map write`
+// cannot be recovered) kills only the child and becomes the observation of that side: run=fatal:<class> end=crashed.
 
 import (
+	"bufio"
+	"encoding/json"
 	"fmt"
+	"io"
 	"math/rand"
+	"os"
+	"os/exec"
+	"sort"
 	"strconv"
 	"strings"
+	"sync"
 	"time"
 
 	"verifharness/c14cell"
@@ -96,6 +113,8 @@ type cellSpec struct {
 	cap           int // 0 = capFor
 	layout        int
 	uris, yaml    bool
+	fh            []c14cell.HdrAt
+	ch            []c14cell.Hdr
 }
 
 func (c cellSpec) line() string {
@@ -127,7 +146,101 @@ func (c cellSpec) line() string {
 	if c.yaml {
 		s += " via=yaml"
 	}
+	if len(c.fh) > 0 {
+		ps := make([]string, len(c.fh))
+		for i, h := range c.fh {
+			ps[i] = fmt.Sprintf("%d:%s:%s", h.Pos, h.Key, h.Val)
+		}
+		s += " fh=" + strings.Join(ps, ";")
+	}
+	if len(c.ch) > 0 {
+		ps := make([]string, len(c.ch))
+		for i, h := range c.ch {
+			ps[i] = h.Key + ":" + h.Val
+		}
+		s += " ch=" + strings.Join(ps, ";")
+	}
 	return s
+}
+
+func parseFH(s string) []c14cell.HdrAt {
+	var out []c14cell.HdrAt
+	if s == "" || s == "-" {
+		return nil
+	}
+	for _, p := range strings.Split(s, ";") {
+		f := strings.SplitN(p, ":", 3)
+		if len(f) == 3 {
+			out = append(out, c14cell.HdrAt{Pos: atoi(f[0]), Key: f[1], Val: f[2]})
+		}
+	}
+	return out
+}
+
+func parseCH(s string) []c14cell.Hdr {
+	var out []c14cell.Hdr
+	if s == "" || s == "-" {
+		return nil
+	}
+	for _, p := range strings.Split(s, ";") {
+		f := strings.SplitN(p, ":", 2)
+		if len(f) == 2 {
+			out = append(out, c14cell.Hdr{Key: f[0], Val: f[1]})
+		}
+	}
+	return out
+}
+
+// perEntry: the format declares headers per entry (no two declarations of the same header for one entry)
+func perEntry(format string) bool {
+	return format == c14cell.KRaw || format == c14cell.KJSONLine || format == c14cell.KJSONArr
+}
+
+// randFH: header declarations for a source of n entries.  uri / uripost: lines anywhere, also after the last entry,
+// the same header redeclared later (also spelled in another case), Host; the other formats: per entry, each header at
+// most once.
+func randFH(r *rand.Rand, format string, n int) []c14cell.HdrAt {
+	keys := []string{"X-A", "X-B", "x-a", "X-Long-Name"}
+	var out []c14cell.HdrAt
+	if n == 0 {
+		return nil
+	}
+	k := 1 + r.Intn(4)
+	seen := map[string]bool{}
+	for j := 0; j < k; j++ {
+		key := keys[r.Intn(len(keys))]
+		pos := r.Intn(n)
+		if perEntry(format) {
+			id := fmt.Sprintf("%d/%s", pos, strings.ToLower(key))
+			if seen[id] {
+				continue
+			}
+			seen[id] = true
+		} else {
+			pos = r.Intn(n + 1)
+			if r.Intn(3) == 0 {
+				pos = 1 + r.Intn(n) // after the first entry
+			}
+			if r.Intn(6) == 0 {
+				key = "Host"
+			}
+		}
+		out = append(out, c14cell.HdrAt{Pos: pos, Key: key, Val: fmt.Sprintf("v%d", j+1)})
+	}
+	sort.SliceStable(out, func(i, j int) bool { return out[i].Pos < out[j].Pos })
+	return out
+}
+
+func randCH(r *rand.Rand) []c14cell.Hdr {
+	switch r.Intn(6) {
+	case 0:
+		return []c14cell.Hdr{{Key: "X-A", Val: "c"}}
+	case 1:
+		return []c14cell.Hdr{{Key: "X-C", Val: "c1"}, {Key: "x-c", Val: "c2"}, {Key: "Host", Val: "cfg.example"}}
+	case 2:
+		return []c14cell.Hdr{{Key: "x-b", Val: "c"}, {Key: "Host", Val: "cfg.example"}}
+	}
+	return nil // half of the cells: no `headers` option
 }
 
 func gen(r *rand.Rand, tier string) []string {
@@ -248,6 +361,53 @@ func gen(r *rand.Rand, tier string) []string {
 		}
 	}
 
+	// (F) headers: sources that declare headers before, between and after their entries (uri / uripost: the decoder's
+	// accumulator; a header redeclared later, also in another spelling; Host) or per entry (http/json, raw), with
+	// and without a `headers` option, over several passes and with a filter; every layout, source and route
+	type hcase struct {
+		fh []c14cell.HdrAt
+		ch []c14cell.Hdr
+	}
+	at := func(pos int, k, v string) c14cell.HdrAt { return c14cell.HdrAt{Pos: pos, Key: k, Val: v} }
+	lineCases := []hcase{
+		{fh: []c14cell.HdrAt{at(1, "X-A", "one")}},
+		{fh: []c14cell.HdrAt{at(0, "X-A", "one"), at(2, "X-A", "two"), at(3, "X-B", "end")}},
+		{fh: []c14cell.HdrAt{at(0, "Host", "f.example"), at(1, "x-a", "low"), at(2, "X-A", "up")}},
+		{fh: []c14cell.HdrAt{at(3, "X-B", "end")}},
+		{fh: []c14cell.HdrAt{at(1, "X-A", "one")}, ch: []c14cell.Hdr{{Key: "X-A", Val: "c"}, {Key: "X-C", Val: "c1"}, {Key: "x-c", Val: "c2"}}},
+		{fh: []c14cell.HdrAt{at(2, "Host", "f.example")}, ch: []c14cell.Hdr{{Key: "Host", Val: "cfg.example"}}},
+		{ch: []c14cell.Hdr{{Key: "x-b", Val: "c"}, {Key: "Host", Val: "cfg.example"}}},
+	}
+	entryCases := []hcase{
+		{fh: []c14cell.HdrAt{at(1, "X-A", "one")}},
+		{fh: []c14cell.HdrAt{at(0, "X-A", "one"), at(0, "X-B", "b"), at(2, "x-a", "two")}},
+		{fh: []c14cell.HdrAt{at(1, "X-A", "one")}, ch: []c14cell.Hdr{{Key: "X-A", Val: "c"}, {Key: "X-C", Val: "c1"}, {Key: "x-c", Val: "c2"}}},
+		{ch: []c14cell.Hdr{{Key: "x-b", Val: "c"}, {Key: "Host", Val: "cfg.example"}}},
+	}
+	htags := []string{"a", "b", "a"}
+	hsubsets := [][]string{nil, {"a"}, {"b"}, {"zz"}}
+	hbounds := [][2]int{{0, 2}, {4, 0}, {5, 3}, {0, 0}}
+	for _, f := range formats {
+		hc := lineCases
+		if perEntry(f) {
+			hc = entryCases
+		}
+		for hi, h := range hc {
+			for si, cases := range hsubsets {
+				for bi, b := range hbounds {
+					for lay := 0; lay < c14cell.Layouts(f); lay++ {
+						if !thorough && (hi+si+bi+lay)%2 == 1 {
+							continue
+						}
+						k := hi + si + bi + lay
+						add(cellSpec{format: f, tags: htags, cases: cases, limit: b[0], passes: b[1], layout: lay,
+							uris: k%3 == 0, yaml: k%4 == 1, fh: h.fh, ch: h.ch})
+					}
+				}
+			}
+		}
+	}
+
 	// (E) random cells
 	extra := 5000
 	maxN := 9
@@ -304,6 +464,11 @@ func gen(r *rand.Rand, tier string) []string {
 		}
 		c := cellSpec{format: formats[r.Intn(len(formats))], tags: tags, cases: cases, limit: limit, passes: passes,
 			layout: r.Intn(4), uris: r.Intn(3) == 0, yaml: r.Intn(4) == 0}
+		// a third of the random cells declares headers
+		if r.Intn(3) == 0 {
+			c.fh = randFH(r, c.format, n)
+			c.ch = randCH(r)
+		}
 		// a fifth of the bounded cells is cancelled somewhere before its end
 		if m, ok := expectedM(limit, passes, f); ok && m >= 2 && r.Intn(5) == 0 {
 			c.cap = 1 + r.Intn(m-1)
@@ -337,6 +502,51 @@ func side(prefix string, o c14cell.Obs) string {
 	return fmt.Sprintf("%s.seq=%s %s.cut=%d %s.run=%s %s.end=%s", prefix, seq, prefix, cut, prefix, o.Run, prefix, o.End)
 }
 
+// hdOf: for every delivered entry id (ascending) the distinct Host/header strings its requests carried; `*:` when
+// they are the same for all delivered entries, `-` when nothing was delivered.
+func hdOf(o c14cell.Obs) string {
+	per := map[int]map[string]bool{}
+	for i, id := range o.Seq {
+		if per[id] == nil {
+			per[id] = map[string]bool{}
+		}
+		h := ""
+		if i < len(o.SeqHdr) {
+			h = o.SeqHdr[i]
+		}
+		per[id][h] = true
+	}
+	if len(per) == 0 {
+		return "-"
+	}
+	ids := make([]int, 0, len(per))
+	for id := range per {
+		ids = append(ids, id)
+	}
+	sort.Ints(ids)
+	strs := make([]string, len(ids))
+	same := true
+	for i, id := range ids {
+		var hs []string
+		for h := range per[id] {
+			hs = append(hs, h)
+		}
+		sort.Strings(hs)
+		strs[i] = strings.Join(hs, "/")
+		if strs[i] != strs[0] {
+			same = false
+		}
+	}
+	if same {
+		return "*:" + strs[0]
+	}
+	parts := make([]string, len(ids))
+	for i, id := range ids {
+		parts[i] = strconv.Itoa(id) + ":" + strs[i]
+	}
+	return strings.Join(parts, "|")
+}
+
 func listOf(s string) []string {
 	if s == "-" || s == "" {
 		return nil
@@ -348,8 +558,17 @@ func listOf(s string) []string {
 	return ps
 }
 
-// runCell: c14cell.Run already repeats a cell that looks stuck once; a cell that still looks stuck is run a third
-// time with a slower watchdog (600 ms ticks), so that a stall of a loaded machine is never reported as a hang.
+func cellOf(input string, preload bool) c14cell.Cell {
+	kv := drv.KV(input)
+	return c14cell.Cell{
+		Kind: kv["fmt"], Preload: preload, Limit: atoi(kv["limit"]), Passes: atoi(kv["passes"]),
+		Tags: listOf(kv["tags"]), Chosen: listOf(kv["cases"]), Cap: atoi(kv["cap"]), Layout: atoi(kv["junk"]),
+		Uris: kv["src"] == "uris", YAML: kv["via"] == "yaml", FH: parseFH(kv["fh"]), CH: parseCH(kv["ch"]),
+	}
+}
+
+// runCell (in the child): c14cell.Run already repeats a cell that looks stuck once; a cell that still looks stuck is
+// run a third time with a slower watchdog (600 ms ticks), so that a stall of a loaded machine is never reported as a hang.
 func runCell(c c14cell.Cell) c14cell.Obs {
 	o := c14cell.Run(c)
 	if o.Construct == "" && (o.End != "closed" || o.Run == "noreturn") {
@@ -359,28 +578,196 @@ func runCell(c c14cell.Cell) c14cell.Obs {
 	return o
 }
 
-func run(input string) string {
-	kv := drv.KV(input)
-	tags := listOf(kv["tags"])
-	cases := listOf(kv["cases"])
-	mk := func(preload bool) c14cell.Cell {
-		return c14cell.Cell{
-			Kind: kv["fmt"], Preload: preload, Limit: atoi(kv["limit"]), Passes: atoi(kv["passes"]),
-			Tags: tags, Chosen: cases, Cap: atoi(kv["cap"]), Layout: atoi(kv["junk"]),
-			Uris: kv["src"] == "uris", YAML: kv["via"] == "yaml",
+// ---------------------------------------------------------------- child processes
+
+const childEnv = "C14_CHILD"
+const obsPrefix = "C14OBS "
+
+// childMain: one request per line (`s <input>` / `p <input>`), one answer per line.
+func childMain() {
+	in := bufio.NewReaderSize(os.Stdin, 1<<20)
+	out := bufio.NewWriter(os.Stdout)
+	for {
+		line, err := in.ReadString('\n')
+		line = strings.TrimRight(line, "\r\n")
+		if len(line) > 2 {
+			o := runCell(cellOf(line[2:], line[0] == 'p'))
+			b, _ := json.Marshal(o)
+			out.WriteString(obsPrefix)
+			out.Write(b)
+			out.WriteString("\n")
+			out.Flush()
+		}
+		if err != nil {
+			return
 		}
 	}
-	s := runCell(mk(false))
-	p := runCell(mk(true))
-	tagsok := 1
+}
+
+type tailBuf struct {
+	mu sync.Mutex
+	b  []byte
+}
+
+func (t *tailBuf) Write(p []byte) (int, error) {
+	t.mu.Lock()
+	defer t.mu.Unlock()
+	t.b = append(t.b, p...)
+	if len(t.b) > 1<<16 { // the head of a crash report names the error
+		t.b = t.b[:1<<16]
+	}
+	return len(p), nil
+}
+
+func (t *tailBuf) String() string {
+	t.mu.Lock()
+	defer t.mu.Unlock()
+	return string(t.b)
+}
+
+type child struct {
+	cmd  *exec.Cmd
+	in   io.WriteCloser
+	out  *bufio.Reader
+	errs *tailBuf
+}
+
+var pool = make(chan *child, 256)
+
+func spawn() (*child, error) {
+	exe, err := os.Executable()
+	if err != nil {
+		return nil, err
+	}
+	cmd := exec.Command(exe)
+	cmd.Env = append(os.Environ(), childEnv+"=1", "GOMAXPROCS=4", "GOTRACEBACK=single")
+	in, err := cmd.StdinPipe()
+	if err != nil {
+		return nil, err
+	}
+	outp, err := cmd.StdoutPipe()
+	if err != nil {
+		return nil, err
+	}
+	c := &child{cmd: cmd, in: in, out: bufio.NewReaderSize(outp, 1<<20), errs: &tailBuf{}}
+	cmd.Stderr = c.errs
+	if err := cmd.Start(); err != nil {
+		return nil, err
+	}
+	return c, nil
+}
+
+func (c *child) kill() {
+	_ = c.in.Close()
+	_ = c.cmd.Process.Kill()
+	_ = c.cmd.Wait()
+}
+
+// crashClass: what killed the child, from the head of its stderr
+func crashClass(stderr string) string {
+	switch {
+	case strings.Contains(stderr, "concurrent map"):
+		return "concurrent-map"
+	case strings.Contains(stderr, "fatal error:"):
+		return "fatal-error"
+	case strings.Contains(stderr, "panic:"):
+		return "panic"
+	}
+	return "died"
+}
+
+// ask runs one side of a cell in a child.  crash = "" or the class of the crash that killed the child.
+func ask(side byte, input string) (o c14cell.Obs, crash string, detail string) {
+	var c *child
+	select {
+	case c = <-pool:
+	default:
+		var err error
+		if c, err = spawn(); err != nil {
+			return o, "spawn", err.Error()
+		}
+	}
+	type ans struct {
+		line string
+		err  error
+	}
+	ch := make(chan ans, 1)
+	go func() {
+		if _, err := io.WriteString(c.in, string(side)+" "+input+"\n"); err != nil {
+			ch <- ans{"", err}
+			return
+		}
+		for {
+			l, err := c.out.ReadString('\n')
+			if strings.HasPrefix(l, obsPrefix) {
+				ch <- ans{strings.TrimSpace(l[len(obsPrefix):]), nil}
+				return
+			}
+			if err != nil {
+				ch <- ans{"", err}
+				return
+			}
+		}
+	}()
+	select {
+	case a := <-ch:
+		if a.err != nil {
+			_ = c.in.Close()
+			done := make(chan struct{})
+			go func() { _ = c.cmd.Wait(); close(done) }()
+			select {
+			case <-done:
+			case <-time.After(5 * time.Second):
+				_ = c.cmd.Process.Kill()
+				<-done
+			}
+			e := c.errs.String()
+			return o, crashClass(e), e
+		}
+		if err := json.Unmarshal([]byte(a.line), &o); err != nil {
+			c.kill()
+			return o, "protocol", a.line
+		}
+		pool <- c
+		return o, "", ""
+	case <-time.After(36 * time.Second):
+		c.kill()
+		return c14cell.Obs{Run: "noreturn", End: "blocked"}, "", ""
+	}
+}
+
+// runSide: a child that dies of a data race is reported at once (the race need not repeat); any other death is
+// reported only if a fresh child dies of the same cell again (a child killed from outside is not a finding).
+func runSide(side byte, input string) c14cell.Obs {
+	o, crash, detail := ask(side, input)
+	if crash != "" && crash != "concurrent-map" {
+		o, crash, detail = ask(side, input)
+	}
+	if crash != "" {
+		if os.Getenv("C14_DEBUG") != "" {
+			fmt.Fprintf(os.Stderr, "child crashed on %c %s:\n%s\n", side, input, drv.Trunc(detail, 3000))
+		}
+		return c14cell.Obs{Run: "fatal:" + crash, End: "crashed"}
+	}
+	return o
+}
+
+func run(input string) string {
+	tags := listOf(drv.KV(input)["tags"])
+	s := runSide('s', input)
+	p := runSide('p', input)
+	tagsok, reqok := 1, 1
 	for _, o := range []c14cell.Obs{s, p} {
 		for i, id := range o.Seq {
 			if id < 0 || id >= len(tags) || o.SeqTags[i] != tags[id] {
 				tagsok = 0
 			}
 		}
+		if o.ReqBad != "" {
+			reqok = 0
+		}
 	}
-	return fmt.Sprintf("%s %s tagsok=%d", side("s", s), side("p", p), tagsok)
+	return fmt.Sprintf("%s %s tagsok=%d reqok=%d s.hd=%s p.hd=%s", side("s", s), side("p", p), tagsok, reqok, hdOf(s), hdOf(p))
 }
 
 func class(input, obs string) string {
@@ -416,10 +803,17 @@ func class(input, obs string) string {
 	if kv["src"] == "uris" {
 		src += "(uris)"
 	}
+	if kv["fh"] != "" || kv["ch"] != "" {
+		b += "+headers"
+	}
 	return src + "/" + sel + "/" + b
 }
 
 func main() {
+	if os.Getenv(childEnv) != "" {
+		childMain()
+		return
+	}
 	drv.Main(&drv.Prop{
 		ID:      "C14",
 		Gen:     gen,
@@ -431,6 +825,8 @@ func main() {
 			"missing final newline, pretty-printed / one-line JSON) through the real http provider with preload off and on, built by NewProvider or by the plugin registry from a config map: " +
 			"fixed files and the empty file x every subset of the tags {a,b,c} plus subsets matching nothing x limit 0..4 x passes 0..3; layouts x sources x routes on files with untagged entries; " +
 			"every cancellation point below the end of bounded cells; thorough: every file of <= 5 entries over {a,b,untagged} x every chosencases subset of {a,b,\"\",zz} x limit 0..4 x passes 0..2; " +
-			"plus random files (tags from {a,b,c,ab,B,untagged,'a b'}), random chosencases subsets (incl. nothing-matching, duplicates) and bounds; class = format(source) / filter shape / bound shape",
+			"header declarations of the source (uri/uripost: [K: v] lines before, between and after the entries, redeclared, other spelling, Host; http/json, raw: per entry) x `headers` option x filter x bounds x layouts; " +
+			"plus random files (tags from {a,b,c,ab,B,untagged,'a b'}), random chosencases subsets (incl. nothing-matching, duplicates), bounds and (a third) random header declarations; " +
+			"every cell runs in a child process (a fatal runtime error of the code under test is the observation run=fatal:<class>); class = format(source) / filter shape / bound shape [+headers]",
 	})
 }
